@@ -14,6 +14,7 @@ Oracles are exact integer / Fraction computations from pbt.gen.exactpoly (windin
 plane equations of a brute-force hull, ranks); orderings are checked with validity predicates."""
 from __future__ import annotations
 
+import math
 from fractions import Fraction
 
 import numpy as np
@@ -70,7 +71,7 @@ FNS = _CHEAP * 2 + ["is_ccw_polygon", "is_ccw_polygon", "pih_voxel", "pih_voxel"
                     "half_space_interior", "sort_multiple_point_pairs"]
 REQUIRED = {f: 0.02 for f in set(FNS)}
 REQUIRED["sort_multiple_point_pairs"] = 0.01
-REQUIRED.update({"poly-hanging": 0.05, "poly-collinear-vertex": 0.05, "poly-collinear-on-extreme-side": 0.03,
+REQUIRED.update({"elongated": 0.03, "poly-hanging": 0.05, "poly-collinear-vertex": 0.05, "poly-collinear-on-extreme-side": 0.03,
                  "poly-first-extreme-vertex-collinear": 0.01, "poly-starts-at-collinear-vertex": 0.01,
                  "poly-convex": 0.03, "poly-star": 0.05, "poly-hist": 0.03, "poly-cw": 0.05, "poly-ccw": 0.05,
                  "pip-inside": 0.03, "pip-outside": 0.03, "pip-on-edge-line": 0.01, "pih-inside": 0.03,
@@ -103,7 +104,8 @@ def _spec(draw):
     fn = draw(st.sampled_from(FNS))
     s = {"fn": fn}
     if fn == "is_ccw_polygon":
-        s.update(poly=draw(polys.polygon()), half=draw(st.booleans()))
+        s.update(poly=draw(polys.polygon()), half=draw(st.booleans()),
+                 xs=draw(st.sampled_from([1, 1, 100, 10 ** 4, 10 ** 6])))
     elif fn == "is_ccw_polyline":
         p1 = draw(st.lists(st.integers(-5, 5), min_size=2, max_size=2))
         d = _nz(draw, 2, -4, 4)
@@ -122,7 +124,8 @@ def _spec(draw):
         P = draw(polys.polygon())
         if fn == "point_in_polygon":
             q = draw(polys.half_points2(P["v"], 1, 6))
-            s.update(poly=P, q2=q, default=draw(st.booleans()), single=(len(q) == 1 and draw(st.booleans())))
+            s.update(poly=P, q2=q, default=draw(st.booleans()), single=(len(q) == 1 and draw(st.booleans())),
+                     xs=draw(st.sampled_from([1, 1, 1, 100, 10 ** 4, 10 ** 6])))
         else:
             s.update(poly=P, q2=draw(polys.half_points2(P["v"], 1, 1)), planar=draw(st.booleans()),
                      q=draw(_quat), shift=draw(_int3))
@@ -158,13 +161,24 @@ def _spec(draw):
         ab = draw(st.lists(st.lists(st.integers(-3, 3), min_size=2, max_size=2), min_size=0, max_size=5))
         s.update(o=o, u=u, w=w, ab=ab, apex=draw(st.sampled_from([0, 0, 0, -2, -1, 1, 2])),
                  apex_pos=draw(st.integers(0, 8)), normal=draw(st.sampled_from(["none", "none", "true", "neg", "other"])),
-                 other=_nz(draw, 3, -3, 3), nscale=draw(st.sampled_from([1, 1, 3])))
+                 other=_nz(draw, 3, -3, 3), nscale=draw(st.sampled_from([1, 1, 3])),
+                 stretch=draw(st.sampled_from([1, 1, 1, 100, 10 ** 4, 10 ** 6])))
     elif fn in ("points_are_collinear", "sort_points_on_line"):
         t = _nz(draw, 3, -3, 3)
         pos = draw(st.lists(st.integers(-6, 6), min_size=1 if fn == "sort_points_on_line" else 2, max_size=7, unique=True))
         s.update(t=t, s=pos, c=draw(_int3), exp=draw(st.sampled_from([0, 0, -1, 1])))
         if fn == "points_are_collinear":
             s.update(off=draw(st.sampled_from([None, None] + list(range(7)))), offv=_nz(draw, 3, -2, 2))
+            if draw(st.integers(0, 2)) == 0:
+                # elongated class: extent 10^e along t, first two points `a` steps apart, one point (never one of the
+                # first two) a small distance off the line, or none
+                s.update(elong={"e": draw(st.integers(2, 6)), "a": draw(st.integers(1, 3)),
+                                "m": draw(st.sampled_from([1, 1, 2, 5])),
+                                "frac": draw(st.lists(st.integers(1, 99), min_size=0, max_size=4, unique=True)),
+                                "off_at": draw(st.one_of(st.none(), st.integers(0, 5))),
+                                "off_frac": draw(st.integers(0, 100)),
+                                "tol": draw(st.sampled_from([None, None, 1e-5, 1e-8])),
+                                "unit": draw(st.sampled_from([1.0, 1.0, 10.0, 1000.0]))})
     elif fn == "hanging_nodes":
         P = draw(polys.polygon())
         s.update(poly=P, perm=list(draw(st.permutations(list(range(len(P["v"])))))))
@@ -439,6 +453,9 @@ def check(s):
         P = s["poly"]
         labels += _poly_labels(P)
         arr = np.array(P["v"], dtype=float).T * (0.5 if s["half"] else 1.0)
+        if s.get("xs", 1) != 1:  # anisotropic: x stretched by an exact integer factor (orientation unchanged)
+            arr[0] *= s["xs"]
+            labels.append("elongated")
         got = gp.is_ccw_polygon(arr)
         exp = ep.area2x(P["v"]) > 0
         require(bool(got) == exp, "is-ccw-polygon", f"is_ccw_polygon={got}, exact signed area says ccw={exp}: {P['v']}")
@@ -469,6 +486,10 @@ def check(s):
         cls = [ep.point_in_polygon(v2, q) for q in s["q2"]]
         poly = np.array(P["v"], dtype=float).T
         pts = np.array(s["q2"], dtype=float).T / 2
+        if s.get("xs", 1) != 1:  # anisotropic: x of polygon and points stretched by the same exact integer factor
+            poly[0] *= s["xs"]
+            pts[0] *= s["xs"]
+            labels.append("elongated")
         if s["single"]:
             pts = pts[:, 0]
         got = np.asarray(gp.point_in_polygon(poly, pts, default=s["default"]), dtype=bool)
@@ -584,15 +605,20 @@ def check(s):
             w = next(a for a in alt if any(ep.cross3(u, a)))
             nrm = ep.cross3(u, w)
         base = [[0, 0], [1, 0], [0, 1]] + s["ab"]
-        pts = [[o[k] + a * u[k] + b * w[k] for k in range(3)] for a, b in base]
+        kst = s.get("stretch", 1) if s["normal"] in ("true", "neg") else 1
+        if kst != 1:
+            # anisotropic: the in-plane extent along u is stretched by an exact integer factor; the distances from the plane
+            # with the given normal (what tol is compared with, in absolute terms) do not change
+            labels.append("elongated")
+        pts = [[o[k] + kst * a * u[k] + b * w[k] for k in range(3)] for a, b in base]
         if s["apex"]:
-            ap = [o[k] + u[k] + w[k] + s["apex"] * nrm[k] for k in range(3)]
+            ap = [o[k] + kst * u[k] + w[k] + s["apex"] * nrm[k] for k in range(3)]
             pts.insert(min(s["apex_pos"], len(pts)), ap)
         rank = ep.affine_rank(pts)
         if rank < 2:
             raise HarnessError("planar generator produced a collinear set")
-        arr = np.array(pts, dtype=float).T
         mode = s["normal"]
+        arr = np.array(pts, dtype=float).T
         labels.append("planar-normal-" + mode)
         if mode == "none":
             got = gp.points_are_planar(arr)
@@ -605,6 +631,43 @@ def check(s):
             got = gp.points_are_planar(arr, normal=np.array(nv, dtype=float))
         labels.append("planar-yes" if exp else "planar-no")
         require(bool(got) == exp, "points-are-planar", f"points {pts} normal={mode}: got {got}, exact {exp}")
+
+    elif fn == "points_are_collinear" and s.get("elong"):
+        # Elongated sets.  The docstring calls tol an "absolute tolerance" without saying of what; the statistic used is
+        # |(p - p0) x (p1 - p0)| / max(1, largest distance).  A verdict is demanded only where the absolute distance from
+        # the line, that distance relative to the extent, and the documented statistic all are exactly 0 or >= 100 tol.
+        e = s["elong"]
+        t, c = s["t"], s["c"]
+        g = ep.primitive(t)
+        L = 10 ** e["e"]
+        tol = 1e-5 if e["tol"] is None else e["tol"]
+        nrm = next(ep.cross3(g, a) for a in ([1, 0, 0], [0, 1, 0], [0, 0, 1]) if any(ep.cross3(g, a)))
+        steps = [0, e["a"]] + sorted(L * f // 100 for f in e["frac"]) + [L]
+        pts = [[c[k] + st_ * g[k] for k in range(3)] for st_ in steps]
+        d = 0
+        if e["off_at"] is not None:
+            d = max(1, int(math.ceil(100 * tol * L * math.sqrt(sum(x * x for x in g))))) * e["m"]
+            so = L * e["off_frac"] // 100
+            po = [c[k] + so * g[k] + d * nrm[k] for k in range(3)]
+            pts.insert(2 + e["off_at"] % (len(pts) - 1), po)
+        if len({tuple(p) for p in pts}) != len(pts):
+            return {"labels": labels + ["collinear-duplicate-skipped"], "nontrivial": False}
+        u = e["unit"]
+        arr = np.array(pts, dtype=float).T * u
+        exact = ep.affine_rank(pts) <= 1
+        labels += ["elongated", f"elongated-1e{e['e']}", "collinear-yes" if exact else "collinear-no"]
+        glen = math.sqrt(sum(x * x for x in g))
+        ext = u * L * glen * 1.01 + u * d * math.sqrt(sum(x * x for x in nrm))
+        dperp = u * d * math.sqrt(sum(x * x for x in nrm))
+        stat = dperp * (u * e["a"] * glen) / max(1.0, ext)
+        clear = exact or min(dperp, dperp / ext, stat) >= 100 * tol
+        got = gp.points_are_collinear(arr) if e["tol"] is None else gp.points_are_collinear(arr, tol=tol)
+        if not clear:
+            labels.append("elongated-not-clear-cut")
+        else:
+            require(bool(got) == exact, "points-are-collinear-elongated",
+                    f"points {pts} x {u:g} (extent {ext:.3g}, one point {dperp:.3g} off the line = {dperp / ext:.3g} of the "
+                    f"extent, documented statistic {stat:.3g}, tol {tol:g}): got {got}, exact {exact}")
 
     elif fn == "points_are_collinear":
         pts, lab = _collinear_points(s)
